@@ -327,9 +327,9 @@ class FTr(STr):
             inner[s.target.id] = V(x, LISTS[it.ty])
             self.nloops = getattr(self, "nloops", 0) + 1
             k_id = self.nloops
-            decl, use = self.params(env, exclude={env[nm].code})
             inner[nm] = V("v_" + nm, env[nm].ty)
             body = self.block(s.body, inner, lambda e2: f"ret {e2[nm].code}", None)
+            decl, use = self.params(env, exclude={env[nm].code, "v_" + nm}, text=body)
             lty = COQTY[env[nm].ty] if env[nm].ty != "inds" else "(list Z)"
             xty = "(list nat)" if it.ty == "llist" else "nat"
             self.aux.append(f"Definition {self.fname}_forl{k_id} {decl}(v_{nm} : {lty}) ({x} : {xty}) : D {lty} :=\n  {body}.\n")
